@@ -9,9 +9,11 @@ fn so(s: Span) -> SpanOut {
     (span_cal(&s), span_time(&s), s.signum())
 }
 
-/// `lg`: 0..=9 = explicit largest unit, 10 = not set.
-pub fn k_span_round_inv(neg: bool, h: i64, mi: i64, s: i64, ms: i64, us: i64, ns: i64, ui: u8, lg: u8, mode: u8) -> Option<Option<SpanOut>> {
-    let sp = mkspan_time(neg, h, mi, s, ms, us, ns)?;
+/// Rounding of the total: a span of seconds and nanoseconds (the other units' contribution to the total is the
+/// subject of `k_span_balance_inv`). `lg`: 0..=9 = explicit largest unit, 10 = not set.
+pub fn k_span_round_inv(neg: bool, s: i64, ns: i64, ui: u8, lg: u8, mode: u8) -> Option<Option<SpanOut>> {
+    let sp = Span::new().try_seconds(s).ok()?.try_nanoseconds(ns).ok()?;
+    let sp = if neg { sp.negate() } else { sp };
     let (u, inc) = unit_inc(ui)?;
     let m = mode_of(mode)?;
     let mut r = SpanRound::new().smallest(u).increment(inc).mode(m);
@@ -27,13 +29,42 @@ pub fn k_span_balance_inv(neg: bool, h: i64, mi: i64, s: i64, ms: i64, us: i64, 
     Some(sp.round(SpanRound::new().largest(unit_of(lg)?)).ok().map(so))
 }
 
-/// Weeks and days with the days-are-24-hours marker.
-pub fn k_span_round_24h(neg: bool, w: i64, d: i64, h: i64, mi: i64, ns: i64, ui: u8, lg: u8, mode: u8) -> Option<Option<SpanOut>> {
+/// Days-are-24-hours marker: re-balancing of weeks/days/hours/minutes/nanoseconds to a largest unit.
+pub fn k_span_balance_24h(neg: bool, w: i64, d: i64, h: i64, mi: i64, ns: i64, lg: u8) -> Option<Option<SpanOut>> {
     let sp = Span::new().try_weeks(w).ok()?.try_days(d).ok()?.try_hours(h).ok()?.try_minutes(mi).ok()?.try_nanoseconds(ns).ok()?;
+    let sp = if neg { sp.negate() } else { sp };
+    Some(sp.round(SpanRound::new().largest(unit_of(lg)?).relative(SpanRelativeTo::days_are_24_hours())).ok().map(so))
+}
+
+/// Err-iff part of re-balancing with three symbolic units (the six-unit kernels carry the conservation and shape claims)
+pub fn k_span_balance_inv_err(neg: bool, h: i64, s: i64, ns: i64, lg: u8) -> Option<Option<SpanOut>> {
+    let sp = Span::new().try_hours(h).ok()?.try_seconds(s).ok()?.try_nanoseconds(ns).ok()?;
+    let sp = if neg { sp.negate() } else { sp };
+    Some(sp.round(SpanRound::new().largest(unit_of(lg)?)).ok().map(so))
+}
+pub fn k_span_balance_24h_err(neg: bool, w: i64, h: i64, ns: i64, lg: u8) -> Option<Option<SpanOut>> {
+    let sp = Span::new().try_weeks(w).ok()?.try_hours(h).ok()?.try_nanoseconds(ns).ok()?;
+    let sp = if neg { sp.negate() } else { sp };
+    Some(sp.round(SpanRound::new().largest(unit_of(lg)?).relative(SpanRelativeTo::days_are_24_hours())).ok().map(so))
+}
+
+/// Days-are-24-hours marker: rounding of the total of a span of days and nanoseconds.
+pub fn k_span_round_24h(neg: bool, d: i64, ns: i64, ui: u8, lg: u8, mode: u8) -> Option<Option<SpanOut>> {
+    let sp = Span::new().try_days(d).ok()?.try_nanoseconds(ns).ok()?;
     let sp = if neg { sp.negate() } else { sp };
     let (u, inc) = unit_inc(ui)?;
     let m = mode_of(mode)?;
     let r = SpanRound::new().smallest(u).increment(inc).mode(m).largest(unit_of(lg)?).relative(SpanRelativeTo::days_are_24_hours());
+    Some(sp.round(r).ok().map(so))
+}
+
+/// Days-are-24-hours marker, smallest unit = day or week with a symbolic increment (calendar units take any increment).
+pub fn k_span_round_24h_day(neg: bool, d: i64, ns: i64, week: bool, inc: i64, mode: u8) -> Option<Option<SpanOut>> {
+    let sp = Span::new().try_days(d).ok()?.try_nanoseconds(ns).ok()?;
+    let sp = if neg { sp.negate() } else { sp };
+    let m = mode_of(mode)?;
+    let u = if week { Unit::Week } else { Unit::Day };
+    let r = SpanRound::new().smallest(u).increment(inc).mode(m).largest(u).relative(SpanRelativeTo::days_are_24_hours());
     Some(sp.round(r).ok().map(so))
 }
 
